@@ -117,7 +117,8 @@ func TestC20RegistrationDuringReopen(t *testing.T) {
 			}
 			<-firstDone
 		}
-		if newS.Reopened.Load() == before || newM.Reopened.Load() == 0 {
+		// (when the sink fails the walk may stop before it reaches the formatter, whatever its order)
+		if newS.Reopened.Load() == before || (!failNew && newM.Reopened.Load() == 0) {
 			t.Fatalf("VIOLATION C20: a Reopen that started after the pipeline of event type NEW had been registered returned (err=%v) without reopening its nodes (formatter reopened %d times, sink %d times)\ncase: %s", err, newM.Reopened.Load(), newS.Reopened.Load()-before, d)
 		}
 		if failNew {
